@@ -790,7 +790,18 @@ def m1_m4_scenes_image(ctx: Any, prog: Program) -> None:
         for c in ctor:
             for k in c.keywords:
                 if k.arg in want_src:
-                    calls_ = [x for x in ast.walk(k.value) if isinstance(x, ast.Call) and isinstance(x.func, ast.Attribute) and isinstance(x.func.value, ast.Name) and x.func.value.id == sc_param and x.func.attr == want_src[k.arg]]
+                    # named temporaries (assigned once) are followed
+                    exprs_ = [k.value]
+                    seen_ = set()
+                    for _ in range(4):
+                        for nm_ in [x.id for e_ in exprs_ for x in ast.walk(e_) if isinstance(x, ast.Name)]:
+                            if nm_ in seen_:
+                                continue
+                            seen_.add(nm_)
+                            d_ = [a.value for a in walk_no_nested(fsn) if isinstance(a, ast.Assign) and any(isinstance(t, ast.Name) and t.id == nm_ for t in a.targets)]
+                            if len(d_) == 1:
+                                exprs_.append(d_[0])
+                    calls_ = [x for e_ in exprs_ for x in ast.walk(e_) if isinstance(x, ast.Call) and isinstance(x.func, ast.Attribute) and isinstance(x.func.value, ast.Name) and x.func.value.id == sc_param and x.func.attr == want_src[k.arg]]
                     ctx.shape('C20.M4', bool(calls_), mod, k.value, f'`{k.arg}` is computed as `{U(k.value)[:60]}`, not from {sc_param}.{want_src[k.arg]}(): whether it agrees with what the scene reports is not decided here',
                               func='Entry.from_scene', text=f'{k.arg} taken from scene.{want_src[k.arg]}()')
                     if k.arg == 'last_speak_ms' and calls_:
